@@ -230,9 +230,67 @@ def rule_narrow(facts):
     return r
 
 
+def rule_qsign(facts):
+    """Integer division truncates toward zero, so a quotient of 0 has lost the dividend's sign and `quotient > 0` is false for every negative
+    dividend. An ordering test of a *quotient* against zero is therefore not a test of the value's sign: used to pick the rounding
+    direction it rounds -0.6 to +1, used as a presence test in a formatter it drops negative components. Cast kernels, formatters and
+    round() must test the dividend (or `!= 0`), never the quotient - unless the dividend is provably non-negative."""
+    from .mir import int_range
+    r = RuleResult("C13-QSIGN", "cast kernels / formatters / round never order-compare a signed quotient with zero", floor=0)
+    SCOPE = ("::functions::cast::", "::numeric::round", "::numeric::trunc", "::numeric::ceil", "::numeric::floor")
+    nfn = 0
+    for rec in facts.all_fns(["glaredb_core"], contains=SCOPE):
+        if not any(m in rec["id"] for m in SCOPE) or "::tests::" in rec["id"]:
+            continue
+        nfn += 1
+        fn = Fn(rec)
+
+        def quotient(op, at):
+            if op[0] not in ("c", "m"):
+                return None
+            o = fn.origin(op, at=at, through_calls=("::unwrap", "::branch", "::expect"))
+            if o[0] == "rv" and o[1][0] == "bin" and o[1][1].startswith("Div") and o[1][4] in ("i8", "i16", "i32", "i64", "i128", "isize"):
+                lo = int_range(fn, o[1][2], at)
+                if lo is not None and lo[0] >= 0:
+                    return None            # non-negative dividend
+                return "`/`"
+            if o[0] == "call" and re.search(r"(checked_div|Div(<[^>]*>)?>::div|ops::Div::div|::div_euclid)$", o[1].name):
+                return o[1].name.rsplit("::", 1)[-1]
+            return None
+
+        def is_zero(op, at):
+            if op[0] == "k":
+                return op[1].get("v") in (0, 0.0) or str(op[1].get("v", "")).endswith("ZERO")
+            o = fn.origin(op, at=at)
+            return o[0] == "const" and (o[1].get("v") == 0 or "ZERO" in str(o[1]))
+        sites = []
+        for b, i, pl, rv, ln in fn.assigns():
+            if rv[0] == "bin" and rv[1] in ("Gt", "Ge", "Lt", "Le"):
+                for x, y in ((rv[2], rv[3]), (rv[3], rv[2])):
+                    q = quotient(x, b)
+                    if q and is_zero(y, b):
+                        sites.append((ln, q))
+        for c in fn.calls():
+            if c.name.endswith(("::gt", "::ge", "::lt", "::le")) and "PartialOrd" in (c.decl + c.name) and len(c.args) == 2:
+                for x, y in ((c.args[0], c.args[1]), (c.args[1], c.args[0])):
+                    q = quotient(x, c.bb)
+                    if q and is_zero(y, c.bb):
+                        sites.append((c.line, q))
+        for ln, q in sorted(set(sites)):
+            r.functions.add(fn.id)
+            r.call_sites += 1
+            r.inst({"fn": fn.id, "line": ln, "quotient_from": q}, False)
+            r.violate(fn.id, "quotient-sign-test", f"the result of {q} is order-compared with zero at line {ln}: a quotient truncated toward zero says nothing about the sign "
+                      "of a dividend smaller than the divisor (wrong rounding direction / negative components dropped)", rec["file"], ln)
+    r.notes.append(f"{nfn} cast/format/round functions scanned")
+    if nfn < 100:
+        r.missing_anchor(f"cast / format / round functions (found {nfn}, expected at least 100)")
+    return r
+
+
 def run(ctx):
     facts = ctx["facts"]
-    return [rule_flat(facts), rule_tab(facts), rule_narrow(facts)]
+    return [rule_flat(facts), rule_tab(facts), rule_narrow(facts), rule_qsign(facts)]
 
 
 CLAIM = {
